@@ -38,6 +38,10 @@ pub fn gen_gds_importable(t: &mut Tape) -> GdsLibrary {
                     if t.chance(1, 2) {
                         // a label inside the shape, on the same layer
                         elems.push(GdsTextElem { string: format!("Net{}", t.draw(4)), layer, texttype: dt, xy: GdsPoint::new(x0 + w / 2, y0 + h / 2), ..Default::default() }.into());
+                        // sometimes further labels with other names on the same shape (shorted nets: the importer only warns)
+                        for _ in 0..t.draw(3) {
+                            elems.push(GdsTextElem { string: format!("Alias{}", t.draw(6)), layer, texttype: dt, xy: GdsPoint::new(x0 + t.draw(w as u64) as i32, y0 + t.draw(h as u64) as i32), ..Default::default() }.into());
+                        }
                     }
                 }
                 3 => {
